@@ -442,6 +442,43 @@ def wire_requests(evs):
     return out
 
 
+def first_unjustified_back(H, evs):
+    """index of the first server frame that is not a legitimate answer to something the client has put on the wire
+    (judged from the wire frames in the implementation's output and the generator's metadata); None if every frame
+    is legitimate.  From that frame on the client may have abandoned the connection (possibly noticed later, while
+    the send task is blocked in a write), so the positive oracles make no claim after it."""
+    seen_ids = {}          # id -> first event index at which a request carrying it was written
+    for k, o in wire_requests(evs):
+        objs = o if isinstance(o, list) else [o]
+        for x in objs:
+            if isinstance(x, dict) and "id" in x:
+                try:
+                    seen_ids.setdefault(int(x["id"]), k)
+                except Exception:
+                    pass
+    answered = set()
+    for idx, (t, m) in enumerate(H.ev):
+        if m.get("kind") == "fault" or m.get("kind") == "failsend":
+            return idx
+        if m.get("kind") != "back":
+            continue
+        w = m.get("what", "")
+        if w in ("pushes", "close"):
+            continue
+        ids = None
+        if w in ("answer", "sub-ok", "sub-refused", "sub-badid", "unsub-ack", "sub-dup"):
+            ids = [m["id"]]
+        elif w == "batch-answer":
+            ids = list(range(m["lo"], m["lo"] + m["n"])) if m.get("mode") == "perm" else None
+        if ids is None:
+            return idx
+        for i in ids:
+            if i in answered or i not in seen_ids or seen_ids[i] >= idx:
+                return idx
+        answered.update(ids)
+    return None
+
+
 # ---------------------------------------------------------------- oracles (implementation output only)
 
 def oracle_c03(H, evs, fail):
@@ -466,6 +503,7 @@ def oracle_c03(H, evs, fail):
         if isinstance(o, dict) and isinstance(o.get("method"), str) and o["method"].startswith("m"):
             wire_at.setdefault(int(o["method"][1:]), k)
     died_at = next((k for k, d in enumerate(evs) if d["F"]), None)
+    bad_at = first_unjustified_back(H, evs)
     answered_ids = set()
     for idx, (t, m) in enumerate(H.ev):
         if m.get("what") == "answer" and idx < len(evs):
@@ -473,7 +511,8 @@ def oracle_c03(H, evs, fail):
             first = i not in answered_ids
             answered_ids.add(i)
             gave_up = any(mm.get("kind") == "giveup" and mm.get("h") == h for _, mm in H.ev[:idx])
-            if first and not gave_up and h in wire_at and wire_at[h] < idx and (died_at is None or died_at >= idx):
+            if first and not gave_up and h in wire_at and wire_at[h] < idx and (died_at is None or died_at >= idx) \
+                    and (bad_at is None or idx < bad_at):
                 got = evs[idx]["C"].get(h)
                 if not got or not (got[0].startswith("ok:") or got[0].startswith("call:")):
                     fail("correct-answer-not-delivered",
@@ -523,7 +562,8 @@ def oracle_c12(H, evs, fail):
             died_before = any(d["F"] for d in evs[:idx])
             on_wire = any(isinstance(o, list) and any(isinstance(x, dict) and str(x.get("id")) == str(m["lo"]) for x in o)
                           for k, o in wire_requests(evs[:idx]))
-            if not gave_up and not died_before and on_wire and idx < len(evs):
+            bad_at = first_unjustified_back(H, evs)
+            if not gave_up and not died_before and on_wire and idx < len(evs) and (bad_at is None or idx < bad_at):
                 if not done or not done[0].startswith("batch:"):
                     fail("batch-complete-reply-not-delivered", "batch %d got a complete reply but completed with %s" % (h, done))
                 else:
@@ -672,13 +712,16 @@ def ack_wire_unsubs(hists):
             evs, tables, panic = parse_out(a)
         except Exception:
             continue
-        acked = set(m["id"] for _, m in H.ev if m.get("what") == "unsub-ack")
+        acks = [(idx, m["id"]) for idx, (_, m) in enumerate(H.ev) if m.get("what") == "unsub-ack"]
+        done = set()
         for k, o in wire_requests(evs):
             if isinstance(o, dict) and isinstance(o.get("method"), str) and o["method"].startswith("unsub"):
                 i = int(o["id"])
-                if i not in acked:
-                    acked.add(i)
+                # an acknowledgement only counts if the server sent it AFTER the request was written
+                # (with a gated transport the scripted server may have answered the reserved id prematurely)
+                if i not in done and not any(idx > k and j == i for idx, j in acks):
                     H.back(H.ack(i), what="unsub-ack", id=i)
+                done.add(i)
 
 
 def run_histories(ctx, hists, oracles, tag="random"):
